@@ -309,7 +309,9 @@ CatalogEntry(e) ==
     /\ Chk(e, "C14", "reply_iff_synchronous", e.sync = (e.responses # <<>>))
     /\ Chk(e, "C14", "constructor_defaults",
            (known /\ Len(e.defaults) = n) => \A i \in 1..n : DefaultOk(e.defaults[i], m.args[i]))
-    /\ Chk(e, "C14", "documented_defaults", (known /\ Len(e.docs) = n) => \A i \in 1..n : e.docs[i] = m.args[i].doc)
+    \* (a default the class documentation STATES must be the specification's; documentation that states none, or in a
+    \* wording the reader of docstrings does not recognise, says nothing)
+    /\ Chk(e, "C14", "documented_defaults", (known /\ Len(e.docs) = n) => \A i \in 1..n : e.docs[i] = "" \/ e.docs[i] = m.args[i].doc)
     \* arguments given by POSITION are taken in wire order, and an argument that is given -- also a falsy one -- is stored as
     \* given (first pass only: values passed by position, then all-falsy values by name, read back by name)
     /\ Chk(e, "C14", "constructor_takes_arguments_in_wire_order",
